@@ -130,3 +130,13 @@ CHECKS.update({
    note=STAT_NOTE + "'Inside the image' is monitored on outputs; its proof is C07's window invariant. Everything before the tail (bandpass, maxima, refinement) is C06/C07/C10. topn=0 (returns everything) "
         "and ep=0.0 at exactly zero measured noise are outside / at the edge of the property and only counted."),
 })
+CHECKS.update({
+ 'C09': dict(
+   text="Proof (partial): Properties/C09.v - for the integer, preprocess=False pipeline (C06 maxima model + C07 refinement model, any number of axes) moving the content by whole pixels inside "
+        "a blank canvas moves every row's position by exactly that offset and changes no other column (maxima, refinement and their composition; the harness' embedding satisfies the relational "
+        "premises); the maxima stage commutes with transposition; batch is the concatenation of locate per frame tagged with frame_no (or the position) and is independent of the completion "
+        "order of Pool.imap workers; monitors sound; ecc's numerator provably differs under transposition (F13 witness). Correspondence: images x offsets x axis orders x locate parameters "
+        "(incl. canvases > 1 Mpx with a ladder of dim blobs at the percentile threshold), every reported column compared; batch with 1, 2 and more processes and shuffled frame orders.",
+   note=STAT_NOTE + "Bandpass under shift, the where_close dedupe, minmass/maxsize/topn, ep, float images, refinement under transposition and real Pool workers are covered by correspondence only. "
+        "Open known findings (printed as KNOWN-FINDING, exit 0): F13 ecc under transposition; F15/F17 exact mass-and-coordinate-sum ties in where_close under transposition / translation."),
+})
